@@ -328,12 +328,27 @@ class Hist:
                 self.pop.remove(s)
         self.ev['st'] = [s.net.digest() for s in touched]
 
+    def own_view(self, s, labels, rng, p=0.5):
+        """Callers routinely hand a circuit one of the lists it reported itself (`c.inputs`,
+        `c.outputs`): when the argument's content equals such a list, pass that very object."""
+        if labels and rng.random() < p:
+            try:
+                if list(labels) == list(s.real.inputs):
+                    self.res.stats.probes.bump('argument-is-the-circuits-own-input-list')
+                    return s.real.inputs
+                if list(labels) == list(s.real.outputs):
+                    self.res.stats.probes.bump('argument-is-the-circuits-own-output-list')
+                    return s.real.outputs
+            except Exception:  # noqa
+                pass
+        return labels
+
     def scribble(self, s, lists, what):
         """The caller goes on using (and changing) the list objects it passed in; the
         circuit must not move: it has to hold copies."""
         before, busers = observe.snap(s.real)
         for l in lists:
-            if isinstance(l, list):
+            if isinstance(l, list) and l is not getattr(s.real, '_inputs', None) and l is not getattr(s.real, '_outputs', None):
                 l.append('__caller_scribble__')
                 l.reverse()
         after, ausers = observe.snap(s.real)
@@ -573,10 +588,13 @@ class Hist:
             return
         labels = list(s.net.gates)
         outs = [rng.choice(labels) for _ in range(rng.randint(0, 4))]
+        if rng.random() < 0.12:
+            outs = list(s.net.inputs if rng.random() < 0.5 else s.net.outputs)
         valid = True
         if rng.random() < self.cfg['p_invalid']:
             outs.append('__absent__')
             valid = False
+        outs = self.own_view(s, outs, rng)
         self.call(lambda: s.real.set_outputs(outs), [s], valid, f'#{s.sid}.set_outputs({list(outs)})')
         self.scribble(s, [outs], 'set_outputs')
         self.settle([s])
@@ -586,7 +604,8 @@ class Hist:
         if s is None:
             return
         ins = list(s.net.inputs)
-        rng.shuffle(ins)
+        if rng.random() < 0.85:
+            rng.shuffle(ins)
         valid = True
         if rng.random() < self.cfg['p_invalid'] and s.net.gates:
             r = rng.random()
@@ -600,6 +619,7 @@ class Hist:
                     return
                 ins.append(rng.choice(non))
             valid = False
+        ins = self.own_view(s, ins, rng)
         self.call(lambda: s.real.set_inputs(ins), [s], valid, f'#{s.sid}.set_inputs({list(ins)})')
         self.scribble(s, [ins], 'set_inputs')
         self.settle([s])
@@ -617,6 +637,7 @@ class Hist:
             else:
                 part.append('__absent__')
             valid = False
+        part = self.own_view(s, part, rng)
         self.call(lambda: s.real.order_inputs(part), [s], valid, f'#{s.sid}.order_inputs({list(part)})')
         self.scribble(s, [part], 'order_inputs')
         self.settle([s])
@@ -636,6 +657,7 @@ class Hist:
             else:
                 part.append('__absent__')
             valid = False
+        part = self.own_view(s, part, rng)
         self.call(lambda: s.real.order_outputs(part), [s], valid, f'#{s.sid}.order_outputs({list(part)})')
         self.scribble(s, [part], 'order_outputs')
         self.settle([s])
@@ -648,14 +670,18 @@ class Hist:
         ins = list(pre.inputs)
         chosen = rng.sample(ins, rng.randint(0, min(len(ins), 3)))
         k = rng.randint(0, len(chosen))
+        if rng.random() < 0.15:
+            chosen = list(ins)  # "fix every input", usually spelled replace_inputs(c.inputs, [])
+            k = rng.choice((0, len(chosen)))
         to_true, to_false = chosen[:k], chosen[k:]
         valid = True
         if rng.random() < max(self.cfg['p_invalid'], 0.05) and chosen:
             to_false = to_false + [chosen[0]] if to_true else to_false + [to_false[0]]
             valid = False
             self.res.stats.probes.bump('replace_inputs-overlap')
-        self.call(lambda: s.real.replace_inputs(to_true, to_false), [s], valid,
-                  f'#{s.sid}.replace_inputs({to_true},{to_false})')
+        a_true, a_false = self.own_view(s, to_true, rng), self.own_view(s, to_false, rng)
+        d = f'#{s.sid}.replace_inputs({list(to_true)},{list(to_false)})' + (' [the circuit\'s own input list passed]' if a_true is not to_true or a_false is not to_false else '')
+        self.call(lambda: s.real.replace_inputs(a_true, a_false), [s], valid, d)
         now, _ = observe.snap(s.real)
         exp_inputs = [x for x in pre.inputs if x not in chosen]
         if now.inputs != exp_inputs:
